@@ -474,12 +474,12 @@ def run_feature_dispatch(prog, rep, multi):
     return rule
 
 
-def run_forward(prog, rep, which=('Tag', 'MultiTag'), mode='RangeMatch', rid='R-FORWARD', floor=12):
+def run_forward(prog, rep, which=('Tag', 'MultiTag'), mode='RangeMatch', rid='R-FORWARD', floor=12, backend=False):
     """a function that is given a RangeMatch mode hands exactly that mode to every callee that takes one"""
     rule = rep.rule(rid, 'every function passes its %s argument on to each callee that takes a %s (no defaulted or constant mode in between)' % (mode, mode), floor=floor)
     n = 0
     for f in sorted(prog.funcs.values(), key=lambda f: (f.file, f.line)):
-        if f.body is None or f.q.startswith('nix::hdf5::') or f.q.startswith('std::') or f.q.startswith('boost::'):
+        if f.body is None or (f.q.startswith('nix::hdf5::') and not backend) or f.q.startswith('std::') or f.q.startswith('boost::'):
             continue
         mp = [p for p in f.params if mode in p['type'] and 'vector' not in p['type']]
         if len(mp) != 1:
@@ -502,6 +502,10 @@ def run_forward(prog, rep, which=('Tag', 'MultiTag'), mode='RangeMatch', rid='R-
             a = unwrap(args[j])
             if a.k == 'defarg':
                 rule.bad(key, rep.where(c), f.label(), 'calls %s without the mode it was given: the callee falls back to its default (%s) whatever the caller asked for' % (c.callee.get('name'), a.src(40)))
+            elif a.k == 'cond' and len(a.c) == 3 and mv in (term(unwrap(a.c[1])), term(unwrap(a.c[2]))) and mv in _flat_terms(term(unwrap(a.c[0]))) \
+                    and isinstance(term(unwrap(a.c[0])), tuple) and term(unwrap(a.c[0]))[1] in ('==', '!='):
+                # sentinel idiom: (param == Sentinel ? configured default : param)
+                rule.ok(key, rep.where(c), f.label(), 'forwards %s unless it is the sentinel tested in %s' % (mp[0]['name'], a.c[0].src(40)))
             elif term(a) != mv:
                 rule.bad(key, rep.where(c), f.label(), 'passes %s as the mode instead of its own parameter %s' % (a.src(40), mp[0]['name']))
             else:
@@ -509,6 +513,18 @@ def run_forward(prog, rep, which=('Tag', 'MultiTag'), mode='RangeMatch', rid='R-
     if n < floor:
         raise AnalysisBroken('%s: only %d mode-forwarding call sites found' % (rid, n))
     return rule
+
+
+def _flat_terms(t):
+    out = []
+
+    def w(x):
+        if isinstance(x, tuple):
+            out.append(x)
+            for y in x:
+                w(y)
+    w(t)
+    return out
 
 
 def split_sig_types(sig):
